@@ -341,6 +341,93 @@ def _subst_const_params(gb, cmap):
         walk(b)
 
 
+def thread_known_discriminants(prog, d, max_new=400):
+    """jump threading: a block that has just assigned `x = Ok(..)` / `Err(..)` / `Some(..)` / `None` (or the result of
+    an always-failing constructor) and then reaches, through empty blocks, a `switch discriminant(x)` takes the edge
+    of that variant.  The switch block is copied for that predecessor with the switch replaced by a goto, so chained
+    combinators / matches (`a.and_then(..).map(..)`) do not mix their outcomes.  Semantics preserving."""
+    blocks = d["blocks"]
+    changed = False
+    added = 0
+    progress = True
+    while progress and added < max_new:
+        progress = False
+        # switch blocks: only statement(s) are `dd = discriminant(x)` (x unprojected) and the switch is on dd
+        sw = {}
+        for si, b in enumerate(blocks):
+            if b["cleanup"] or b["term"]["k"] != "switch" or not b["stmts"] or len(b["stmts"]) > 8:
+                continue
+            st = b["stmts"][-1]
+            if st["rv"]["k"] != "discr" or st["rv"]["place"]["proj"] or st["place"]["proj"]:
+                continue
+            dop = b["term"]["discr"]
+            if dop.get("k") not in ("copy", "move") or dop["place"]["proj"] or dop["place"]["local"] != st["place"]["local"]:
+                continue
+            # the tested value may be a copy made in this block (`c = move x; dd = discriminant(c)`)
+            x = st["rv"]["place"]["local"]
+            for st2 in reversed(b["stmts"][:-1]):
+                if st2["place"]["local"] == x and not st2["place"]["proj"] and st2["rv"]["k"] == "use" and st2["rv"]["op"].get("k") in ("copy", "move") and not st2["rv"]["op"]["place"]["proj"]:
+                    x = st2["rv"]["op"]["place"]["local"]
+            if any(st2["place"]["local"] == x for st2 in b["stmts"]):
+                continue
+            sw[si] = x
+        if not sw:
+            break
+        for bi in range(len(blocks)):
+            b = blocks[bi]
+            if b["cleanup"] or bi in sw:
+                continue
+            t = b["term"]
+            if t["k"] == "goto":
+                nxt, via_call = t["target"], False
+            elif t["k"] == "call" and t["target"] >= 0 and not t["dest"]["proj"]:
+                nxt, via_call = t["target"], True
+            else:
+                continue
+            # follow empty goto blocks
+            hops = 0
+            while nxt not in sw and hops < 6 and not blocks[nxt]["cleanup"] and not blocks[nxt]["stmts"] and blocks[nxt]["term"]["k"] == "goto":
+                nxt = blocks[nxt]["term"]["target"]
+                hops += 1
+            if nxt not in sw:
+                continue
+            x = sw[nxt]
+            vidx = None
+            if via_call:
+                if t["dest"]["local"] != x:
+                    continue
+                c = _callee(t)
+                ty = d["locals"][x]["ty"] if x < len(d["locals"]) else ""
+                if ty.startswith("std::result::Result<") and (c.endswith("::from_residual") or prog.is_always_err(c)):
+                    vidx = 1
+            else:
+                for st in reversed(b["stmts"]):
+                    if st["place"]["local"] == x:
+                        rv = st["rv"]
+                        if not st["place"]["proj"] and rv["k"] == "aggregate" and rv["kind"].get("agg") == "adt" and (
+                                rv["kind"]["adt"].endswith("result::Result") or rv["kind"]["adt"].endswith("option::Option")):
+                            vidx = rv["kind"]["vidx"]
+                        break
+            if vidx is None:
+                continue
+            sb = blocks[nxt]
+            tgt = None
+            for v, tb in sb["term"]["targets"]:
+                if str(v) == str(vidx):
+                    tgt = tb
+            if tgt is None:
+                tgt = sb["term"]["otherwise"]
+            nb = {"cleanup": False, "stmts": copy.deepcopy(sb["stmts"]), "term": {"k": "goto", "target": tgt}, "threaded": "discr"}
+            blocks.append(nb)
+            if via_call:
+                t["target"] = len(blocks) - 1
+            else:
+                b["term"] = {"k": "goto", "target": len(blocks) - 1}
+            added += 1
+            changed = progress = True
+    return changed
+
+
 CONSUMERS = ("for_each", "try_for_each", "fold", "try_fold")
 
 
@@ -510,6 +597,13 @@ def _try_chain_impl(blocks, start, dest_local):
     """[converter calls ->] Try::branch(move v) -> switch on its discriminant, starting at block `start`, fed by the
     local dest_local.  returns (chain block ids, continue target, break target) or None"""
     chain, cur, val = [], start, dest_local
+    # empty pass-through blocks in front of the chain (the return block of an inlined closure)
+    for _ in range(6):
+        b0 = blocks[cur]
+        if not b0["cleanup"] and not b0["stmts"] and b0["term"]["k"] == "goto":
+            cur = b0["term"]["target"]
+        else:
+            break
     for _ in range(4):
         b = blocks[cur]
         if b["cleanup"] or b["stmts"]:
@@ -639,6 +733,15 @@ class Inliner:
         self._devirtualise()
         self.prog._cg = None
         self.prog._always_err = {}
+        for p in sorted(self.prog.fns):
+            f = self.prog.fns[p]
+            d2 = dict(f.d)
+            d2["blocks"] = copy.deepcopy(f.blocks)
+            if thread_known_discriminants(self.prog, d2):
+                nf = Fn(d2, f.crate)
+                nf.program = self.prog
+                self.prog.fns[p] = nf
+                self.threaded = getattr(self, "threaded", 0) + 1
         # remove helpers that are no longer called (never known, never public API of a known type, address not taken)
         called, taken = set(), set()
         for p, f in self.prog.fns.items():
